@@ -121,8 +121,16 @@ def board_patterns(h, w, rng, n_random=16, star_cap=24, budget=200000):
     for arm in (1, 2):
         st = stars(h, w, arm)
         if len(st) > star_cap:
-            # keep the corner-most and centre-most centres, sample the rest
-            st = st[:5] + st[-5:] + rng.sample(st[5:-5], star_cap - 10)
+            # stars with at most one border cell are the admissible ones (two border cells in one diagonal
+            # component cut the board): every 4-armed one, a sample of the 3-armed ones, a few inadmissible
+            good = [t for t in st if sum(1 for c in t[1] if on_border(h, w, c)) <= 1]
+            bad = [t for t in st if t not in good]
+            x4 = [t for t in good if t[0].startswith("star4")]
+            x3 = [t for t in good if not t[0].startswith("star4")]
+            x4 = x4 if len(x4) <= star_cap // 2 else rng.sample(x4, star_cap // 2)
+            k3 = max(4, star_cap - len(x4) - 4)
+            x3 = x3 if len(x3) <= k3 else rng.sample(x3, k3)
+            st = x4 + x3 + (bad if len(bad) <= 4 else rng.sample(bad, 4))
         for tag, cells in st:
             add(tag, cells)
     # diagonal chains: hanging from the border (maximal length = the number of rank values the encoding
